@@ -10,8 +10,17 @@ impl<T> HashSet<T> {
     #[verifier::external_body] pub fn insert(&mut self, t: T) -> (b: bool) ensures final(self).view() == old(self).view().insert(t), b == !old(self).view().contains(t) { unimplemented!() }
     #[verifier::external_body] pub fn contains(&self, t: &T) -> (b: bool) ensures b == self.view().contains(*t) { unimplemented!() }
     #[verifier::external_body] pub fn is_empty(&self) -> (b: bool) ensures b == (self.view() =~= SSet::<T>::empty()) { unimplemented!() }
+    /// some duplicate-free enumeration of the elements (uninterpreted: proofs do not depend on the order)
+    pub uninterp spec fn elem_order(&self) -> Seq<T>;
+    pub open spec fn order_ok(&self) -> bool {
+        self.elem_order().no_duplicates()
+        && (forall|t: T| #![trigger self.view().contains(t)] #![trigger self.elem_order().contains(t)] self.view().contains(t) <==> self.elem_order().contains(t))
+        && (forall|i: int| 0 <= i < self.elem_order().len() ==> self.view().contains(#[trigger] self.elem_order()[i]))
+    }
     #[verifier::external_body] pub fn iter(&self) -> (r: VxIter<&T>)
-        ensures forall|i: int| 0 <= i < r.items().len() ==> self.view().contains(*(#[trigger] r.items()[i])),
+        ensures self.order_ok(), r.items().len() == self.elem_order().len(),
+            forall|i: int| #![trigger r.items()[i]] #![trigger self.elem_order()[i]] 0 <= i < r.items().len() ==> *r.items()[i] == self.elem_order()[i],
+            forall|i: int| 0 <= i < r.items().len() ==> self.view().contains(*(#[trigger] r.items()[i])),
             forall|t: T| self.view().contains(t) ==> exists|i: int| 0 <= i < r.items().len() && *(#[trigger] r.items()[i]) == t,
             forall|i: int, j: int| 0 <= i < j < r.items().len() ==> *r.items()[i] != *r.items()[j],
     { unimplemented!() }
@@ -97,4 +106,8 @@ pub proof fn lemma_vx_map_of_val<K, V>(items: Seq<(K, V)>, i: int)
         assert(pre[i] == items[i]);
         assert(items[i].0 != items[items.len() - 1].0);
     }
+}
+impl<T> HashSet<T> {
+    #[verifier::external_body] pub fn remove(&mut self, t: &T) -> (b: bool) ensures final(self).view() == old(self).view().remove(*t), b == old(self).view().contains(*t) { unimplemented!() }
+    #[verifier::external_body] pub fn clear(&mut self) ensures final(self).view() == SSet::<T>::empty() { unimplemented!() }
 }
